@@ -188,11 +188,18 @@ pub fn array_constructor_fn(
     if args.len() == 1
         && let Some(JsValue::Number(n)) = args.first()
     {
-        let len = *n as u32;
-        let mut elements = Vec::with_capacity(len as usize);
-        for _ in 0..len {
-            elements.push(JsValue::Undefined);
+        // ArrayCreate: the length must be an integer in 0..2^32-1
+        if !(*n >= 0.0 && *n <= u32::MAX as f64 && n.fract() == 0.0) {
+            return Err(JsError::range_error("Invalid array length"));
         }
+        let len = *n as usize;
+        // Elements are stored densely; a length that cannot be allocated is reported
+        // to the script instead of aborting the process
+        let mut elements = Vec::new();
+        if elements.try_reserve_exact(len).is_err() {
+            return Err(JsError::range_error("Invalid array length"));
+        }
+        elements.resize(len, JsValue::Undefined);
         let guard = interp.heap.create_guard();
         let arr = interp.create_array_from(&guard, elements);
         return Ok(Guarded::with_guard(JsValue::Object(arr), guard));
